@@ -1,3 +1,2 @@
-import FluteModel.Drv.Util
--- stub: engine `sched` not built yet
-def main : IO Unit := Flute.Drv.runDriver () (fun _ _ => ((), "bad-op"))
+import FluteModel.Drv.Sched
+def main : IO Unit := Flute.Drv.runDriver ({} : Flute.Drv.Sched.D) Flute.Drv.Sched.step
